@@ -134,6 +134,23 @@ impl C04 {
                     return;
                 }
             }
+            // (a') a near miss: the right key with one byte changed - the first, one in the middle, one in the last word, the last
+            // (a comparison that stops early or looks at part of the key lets one of them through)
+            for pos in [0usize, 15, 24, 31] {
+                let mut b = right.to_bytes();
+                b[pos] ^= 0x01;
+                let near = Pubkey::new_from_array(b);
+                let mut ixn = v.ix.clone();
+                ixn.accounts[i].pubkey = near;
+                ixn.accounts[i].is_signer = true;
+                let r = exec(&base, ixn);
+                cov.eval(format!("{}|{}|near_miss_key", name, slot));
+                self.cell(format!("{} / {} / the right key with byte {} changed", name, slot, pos), !r.ok);
+                if r.ok {
+                    out.push(v04("wrong_signer_accepted", idx, format!("{}: succeeded for a signer whose key differs from the recorded `{}` in byte {} only", name, slot, pos)));
+                    return;
+                }
+            }
             // (a3) the legitimate holder of THIS position presents the lock record of ANOTHER position of the same pool:
             // the other holder's record must not change without that holder
             if let (Some(li), true) = (c.idx("lock_config"), *slot == "position_authority") {
